@@ -82,7 +82,7 @@ INDEX = {
    {"name": "VerifH23Gate", "common": {"max_depth": 3000}, "quick": {"bounds": {}}},
  ]},
  "C24": {"package": ".", "harnesses": [
-   {"name": "VerifH24Translate", "common": {"max_depth": 3000}, "quick": {"bounds": {"keys": 2, "keylen": 1, "smalltable": 1}}, "thorough": {"bounds": {"keys": 3, "keylen": 2, "smalltable": 1}}},
+   {"name": "VerifH24Translate", "common": {"max_depth": 3000}, "quick": {"bounds": {"keys": 3, "keylen": 1, "smalltable": 1, "batches": 2, "xxhash_values": 3}}, "thorough": {"bounds": {"keys": 4, "keylen": 1, "smalltable": 1, "batches": 2, "xxhash_values": 4}, "max_paths": 600000}},
  ]},
  "C26": {"package": "./pql", "harnesses": [
    {"name": "VerifH26ParseConcrete", "quick": {"bounds": {}}},
